@@ -14,7 +14,7 @@ import numpy as np
 from vf.rtc import driver
 
 DTYPES = ["float64", "complex128", "float32", "complex64"]
-SINGLE = ("float32", "complex64")
+SINGLE = ("float32", "complex64", "mixed")
 LETTERS = "abcdefghijklmnopqrstuvwxyz"
 
 
@@ -82,6 +82,8 @@ def _rtol(dt):
 
 def _cmp(got, ref, scale, rtol, what="value"):
     """scale-aware comparison; shapes first"""
+    if not isinstance(got, (np.ndarray, np.generic, int, float, complex)):
+        return f"{what}: result is a {type(got).__name__}, not a number or array"
     got = np.asarray(got)
     ref = np.asarray(ref)
     if got.shape != ref.shape:
@@ -106,6 +108,7 @@ class Spec:
     def __init__(self, arrays, labels, tags, exponent, dtype):
         self.arrays, self.labels, self.tags, self.exponent, self.dtype = arrays, labels, tags, exponent, dtype
         self.nt = len(arrays)
+        self.np_exponent = bool(len(arrays) % 2 == 0 and exponent != 0.0)
         self.counts = Counter(x for lab in labels for x in lab)
         seen = []
         for lab in labels:
@@ -132,7 +135,9 @@ class Spec:
         """a fresh quimb network built from copies of the raw arrays"""
         idx = range(self.nt) if which is None else which
         tn = qtn.TensorNetwork([qtn.Tensor(self.arrays[k].copy(), inds=self.labels[k], tags=self.tags[k]) for k in idx])
-        tn.exponent = self.exponent if exponent is None else exponent
+        ex = self.exponent if exponent is None else exponent
+        # the attribute holds a python float or (as after strip_exponent / equalize_norms) a numpy float64
+        tn.exponent = np.float64(ex) if self.np_exponent else float(ex)
         return tn
 
     def needs_explicit(self, out):
@@ -222,7 +227,10 @@ def gen_spec(rng, nt, hyper, dtype, exponent, self_trace=False, maxrank=4, prefi
     while np.prod([float(v) for v in sizes.values()] or [1.0]) > 20000:
         big = [x for x, v in sizes.items() if v == 3]
         sizes[big[0]] = 2
-    arrays = [_rand_array(rng, tuple(sizes[x] for x in lab), dtype) for lab in labels]
+    if dtype == "mixed":  # every tensor draws its own dtype; the network is judged at single precision
+        arrays = [_rand_array(rng, tuple(sizes[x] for x in lab), DTYPES[int(rng.integers(0, 4))]) for lab in labels]
+    else:
+        arrays = [_rand_array(rng, tuple(sizes[x] for x in lab), dtype) for lab in labels]
     tags = []
     for k in range(nt):
         tg = [f"T{k}", "N"]
@@ -378,7 +386,8 @@ def _cum_groups(rng, sp):
 
 @driver("C01", "full-contraction-routes", chunks=6, timeout=200,
         bound="random (hyper)graph networks: 1-6 tensors (quick 1-5) of rank 0-4, dims {1,2,3}, labels of multiplicity "
-              "1-4, optional label repeated on one tensor, f32/f64/c64/c128, stored exponent {0,+-1.5,30,-7.25} (single "
+              "1-4, optional label repeated on one tensor, f32/f64/c64/c128 or a different dtype per tensor, stored exponent "
+              "(python float or numpy float64) {0,+-1.5,30,-7.25} (single "
               "precision {0,+-1.5,3}); outputs: inferred, inferred set permuted, arbitrary subsets of <=3 labels in 2 "
               "orders; optimize {default,auto,greedy,auto-hq,random explicit path}; strip_exponent, preserve_tensor, "
               "inplace, equalize_norms {auto,True,False}; rtol 1e-9 (double) / 3e-4 (single) of the sum of |terms|")
@@ -389,7 +398,7 @@ def full_routes(cx):
     rng = cx.rng
     nts = [1, 2, 3, 4, 5] if cx.quick else [1, 2, 3, 4, 5, 6]
     reps = 8 if cx.quick else 80
-    grid = [(nt, hy, dt, ei, r) for nt in nts for hy in (False, True) for dt in DTYPES for ei in range(5)
+    grid = [(nt, hy, dt, ei, r) for nt in nts for hy in (False, True) for dt in DTYPES + ["mixed"] for ei in range(5)
             for r in range(reps)]
     for i, (nt, hy, dt, ei, r) in enumerate(grid):
         exps = _exponents(dt, cx.quick)
